@@ -6,7 +6,7 @@ SPEC = {
                 "deadline": {"quick": 240, "thorough": 1500}}],
     "rule": ("explicit-state BFS to fixpoint over the real DataTracker (level a), Flow driven with IP/TCP/RawPDU packets and "
              "callbacks (level b) and the legacy TCPStreamFollower (level c); alphabet = every segment (off,len) of a stream "
-             "of L distinct bytes plus stale/straddling segments before the ISN, every event always enabled; one BFS per ISN "
+             "of L distinct bytes plus stale/straddling segments before the ISN (adjacent ones, and 2^30 + 5 / 2^31 - 9 positions behind it), every event always enabled; one BFS per ISN "
              "with the 2^32 wrap point at every stream offset; state = (relative delivery point, relative chunk map, counters) "
              "x model coverage mask; invariants on every transition: delivered = s[0:k] with k the contiguous arrived prefix, "
              "no chunk at or below k, chunk bytes = stream bytes, total_buffered_bytes = sum of chunk sizes. "
